@@ -471,5 +471,29 @@ def rule_a8(repo):
     return res
 
 
+def rule_a9(repo):
+    """When a method finds that a gap is already proved (find_goal returns the line that proves it), the gap is
+    removed and its citations are redirected - to that line.  `replace_id(gap, X)`: X must be what find_goal
+    returned, not some other identifier that happens to be in scope."""
+    res = RuleResult('C13.A9', 'citations of a discharged gap are redirected to the line find_goal found', floor=4)
+    m = repo.module(METHOD)
+    for f in m.all_funcs:
+        calls = [c for c in ast.walk(f.node) if isinstance(c, ast.Call) and call_attr(c) == 'replace_id' and len(c.args) == 2]
+        if not calls:
+            continue
+        flow = flow_of(f.node)
+        for c in calls:
+            tgt = c.args[1]
+            from_find = any(isinstance(rh, ast.Call) and call_attr(rh) == 'find_goal' for nm in flow.names_closure(tgt) | ({tgt.id} if isinstance(tgt, ast.Name) else set())
+                            for kd, rh in flow.defs.get(nm, []) if kd == 'value') or \
+                (isinstance(tgt, ast.Call) and call_attr(tgt) == 'find_goal')
+            k = sum(1 for i in res.instances if ':: %s ::' % f.qualname in i.key)
+            res.add('%s :: %s :: redirect#%d(%s)' % (METHOD, f.qualname, k + 1, src(c.args[0], 20)), from_find,
+                    'redirected to the result of find_goal' if from_find else
+                    '`%s`: the new target `%s` is not the line find_goal returned: the closing step then cites a line that states something else, '
+                    'and the finished proof fails its check' % (src(c, 50), src(tgt, 20)), '%s:%d' % (METHOD, c.lineno))
+    return res
+
+
 def rules(repo):
-    return [rule_a1(repo), rule_a2(repo), rule_a3(repo), rule_a4(repo), rule_a5(repo), rule_a6(repo), rule_a7(repo), rule_a8(repo)]
+    return [rule_a1(repo), rule_a2(repo), rule_a3(repo), rule_a4(repo), rule_a5(repo), rule_a6(repo), rule_a7(repo), rule_a8(repo), rule_a9(repo)]
